@@ -69,6 +69,52 @@ theorem OrderedMap_splitRoot_data_genError (om : OrderedMap E V X S) (d : MapDat
   simp [OrderedMap_splitRoot, OrderedMap_Address, MapSlab_IsData, MapDataSlab_IsData, MapSlab_RemoveExtraData,
     MapDataSlab_RemoveExtraData, MapSlab_SlabID, MapDataSlab_SlabID, hroot, h]
 
+/-- `mergeChildren`: a failing `storage.Remove` of the merged-away right slab is returned WRAPPED; by then the merged slab
+    and the parent (child header removed, size decreased) are already stored -/
+theorem MapMetaDataSlab_mergeChildren_removeError (m m1 : MapMetaDataSlab X) (c c1 c2 c3 : S)
+    (l l' r : MapSlab E V X) (hd : MapSlabHeader) (li ri : Int) (rid : SlabID) (e : ε)
+    (h1 : MapSlab_Merge env l r = some (none, l'))
+    (h2 : MapSlab_Header env l' = some hd)
+    (h3 : MapMetaDataSlab_updateChildrenHeadersAfterMerge env m hd li ri = some m1)
+    (h4 : storeSlab env c l' = some (none, c1))
+    (h5 : storeSlab env c1 (.metaSlab
+            (if li = 0 then
+               { m1 with header := { m1.header with size := m1.header.size - UInt32.ofNat Gen.mapSlabHeaderSize, firstKey := hd.firstKey } }
+             else { m1 with header := { m1.header with size := m1.header.size - UInt32.ofNat Gen.mapSlabHeaderSize } })) = some (none, c2))
+    (h6 : MapSlab_SlabID env r = some rid)
+    (h7 : env.SlabStorage_Remove c2 rid = (some e, c3)) :
+    MapMetaDataSlab_mergeChildren env m c l r li ri =
+      some (env.wrapErrorfAsExternalErrorIfNeeded (some e),
+            (if li = 0 then
+               { m1 with header := { m1.header with size := m1.header.size - UInt32.ofNat Gen.mapSlabHeaderSize, firstKey := hd.firstKey } }
+             else { m1 with header := { m1.header with size := m1.header.size - UInt32.ofNat Gen.mapSlabHeaderSize } }),
+            c3, l') := by
+  by_cases hli : li = 0
+  · simp only [hli, if_true] at h5 ⊢
+    simp [MapMetaDataSlab_mergeChildren, h1, h2, hli ▸ h3, h4, h5, h6, h7]
+  · simp only [hli, if_false] at h5 ⊢
+    simp [MapMetaDataSlab_mergeChildren, h1, h2, h3, hli, h4, h5, h6, h7]
+
+/-- the promoted index child: the root's slab id and extra data moved to it -/
+def msl_promoted (cm rm : MapMetaDataSlab X) : MapMetaDataSlab X :=
+  { header := { cm.header with slabID := rm.header.slabID }, childrenHeaders := cm.childrenHeaders, extraData := rm.extraData }
+
+/-- `promoteChildAsNewRoot` (index child): a failing `storage.Remove` of the child's old register is returned WRAPPED; the
+    handle already points to the promoted child (root id and extra data moved), which is already stored -/
+theorem OrderedMap_promoteChildAsNewRoot_removeError (om : OrderedMap E V X S) (rm cm : MapMetaDataSlab X)
+    (cid : SlabID) (c1 c2 c3 : S) (e : ε)
+    (hroot : om.root = .metaSlab rm)
+    (h1 : getMapSlab env om.Storage cid = (.metaSlab cm, none, c1))
+    (h2 : storeSlab env c1 (.metaSlab (msl_promoted cm rm)) = some (none, c2))
+    (h3 : env.SlabStorage_Remove c2 cid = (some e, c3)) :
+    OrderedMap_promoteChildAsNewRoot env om cid =
+      some (env.wrapErrorfAsExternalErrorIfNeeded (some e),
+            { Storage := c3, root := .metaSlab (msl_promoted cm rm) }) := by
+  simp [OrderedMap_promoteChildAsNewRoot, h1, hroot, MapSlab_IsData, MapMetaDataSlab_IsData, MapSlab_RemoveExtraData,
+    MapMetaDataSlab_RemoveExtraData, MapSlab_SlabID, MapMetaDataSlab_SlabID, MapSlab_SetSlabID, MapMetaDataSlab_SetSlabID,
+    MapSlab_SetExtraData, MapMetaDataSlab_SetExtraData, msl_promoted, h3] at h2 ⊢
+  simp [h2, h3]
+
 /-! ### `singleElements`: a failing comparator (on the first element) is returned WRAPPED, nothing changed -/
 
 theorem singleElements_get_cmpError (e : singleElements V) (x : singleElement V) (rest : List (singleElement V))
